@@ -16,6 +16,10 @@ CONSUMERS = ["proc", "one", "ifE", "ifO", "untE", "untO", "take", "clear"]
 PUTBACK = ("ifE", "ifO", "untE", "untO")
 
 
+# calls the heterogeneous queue has too (harness variant VQ_HETER)
+HETER_OK = ("enq", "proc", "one", "ifE", "ifO", "wait", "waitfor", "empty", "clear")
+
+
 def gen_program(rng, profile):
     """list of thread programs (lists of call names)"""
     nt = rng.randint(2, 4)
